@@ -307,6 +307,12 @@ def _script_oracle(props, walk=False):
         for prop, reason, step in fails:
             if any(p in props for p in prop.split(",")):
                 return "%s [step %d]" % (reason, step)
+        if fails:
+            # failures of other properties only: look further along the script for one of ours
+            fails2, _ = oracle_script.judge_full(c, a, keep_going=True)
+            for prop, reason, step in fails2:
+                if any(p in props for p in prop.split(",")):
+                    return "%s [step %d]" % (reason, step)
         if walk and not a.startswith("noparse") and not waived - {"KF1"}:
             return oracle_script.walk_rules(c, a)
         return None
